@@ -15,6 +15,10 @@ CHECKS = {
          "Generated-input exploration: m12, M12, M21, S12 from direct, arc-direct, line and inverse interfaces of all three solver configurations are compared with the quantities' definitions (variational equation, area between the segment and the equator) integrated independently.",
          "Trusts the ODE reference (area integrand regularised analytically at the poles), tolerance law of DESIGN section 2 incl. the end-point conditioning term c2*tan(phi)/nu*position tolerance; lines passing within 1 m of the axis are compared modulo pi*c2.",
          "DESIGN.md section 3/C03"),
+ "C12": ("rapidcheck + enumeration", "property-based testing with exhaustive enumeration of the output-mask and capability dimensions per generated geodesic; differential against the ALL-mask call; sentinel bit patterns for untouched outputs",
+         "For each generated geodesic/rhumb line all 2^7 (2^5 for rhumb) output-bit subsets x LONG_UNROLL and all 2^8 capability subsets are executed; requested outputs must equal the ALL-mask values to round-off and everything else must keep its sentinel bit pattern. Line self-consistency (arc vs distance addressing, third point) uses the documented accuracy.",
+         "The values themselves are tied to the definitions by C01-C03/C09; here the oracle is the library's own ALL-mask result, which is what the property states. Geodesics are sampled, masks are exhaustive.",
+         "DESIGN.md section 3/C12"),
  "C01": ("rapidcheck", "property-based testing against an independent long-double geodesic-ODE reference; differential across 8 solver/line configurations; metamorphic reversal",
          "Generated-input exploration: every generated direct problem is compared with a reference that integrates the geodesic equation itself (no series, no auxiliary sphere), to 2x the documented accuracy for the flattening. Exploration is the right level: the property quantifies over a continuum of inputs and an executable oracle exists.",
          "Trusts: the reference ODE integrator (self-checked per case by step halving, constraint projection), x87 long double, the tolerance formulas of DESIGN section 2 (2x documented accuracy, scaled by length in quarter circuits). Errors below the documented accuracy are not violations.",
